@@ -204,7 +204,7 @@ def week_guard_eval(ctx) -> T.Optional[T.List[str]]:
     try:
         for pat, want in cases:
             try:
-                got, _ys = prog.run_body(g, {g.params[0]: pat, "__strict__": None})
+                got, _ys = prog.run_body(g, {g.params[0]: pat, "__strict__": None, "__calls__": True})
             except EvalError as ex:
                 got = f"raises: {ex}"
             if got is not want and len(wrong) < 5:
